@@ -24,6 +24,13 @@ CLAIMED = {
             note="Trusted: Coq kernel, extraction+driver, harness. CPython bisect/sorted are modelled by their specifications; View index arithmetic is modelled as the table of selected rows (refinement) and tied by correspondence only. "
                  "index correctness (permutation, lexicographic order, runs) is NOT proved in Coq - it is checked by the oracle on every generated sequence (partial). 'match'/callables: oracle only. Two open findings (stale index after insert, copy shares data).",
             technique="Coq proof (sorted-segment interval lemmas) + extracted-model op-sequence correspondence", design="§5 C17"),
+ "C09": dict(text="Coq theorems (C09/Props.v) over a position model of the filters: Shuffle and Riffle are permutations, Sort is a stable ordering (permutation + sorted + equal keys keep input order), "
+                  "Slice positions, Reservoir yields min(n,N) distinct in-range positions for ANY skip lengths (strict: n or nothing), Where's peek of max+1 interactions decides the range exactly "
+                  "(theorem over the generated _in_min_max and peek flag), Batch then Unbatch is the identity. Tied to the code by the translator and by position-recovery correspondence "
+                  "(unique ids, content equality) on generated interaction lists, incl. abandoned-read histories for Cache.",
+            note="Trusted: Coq kernel, translator (textual recognition of Where.filter statements), extraction+driver, harness. Reservoir's skip lengths (libm log/pow) are supplied to the model by the harness; "
+                 "Take/Cache/Chunk/Params/Identity are modelled by definition (prefix/identity) and tied by correspondence only; CPython sorted() stability is trusted.",
+            technique="Coq proof over position model + translator + extracted-model correspondence", design="§5 C09"),
 }
 NA_REASON = "check not built yet in this revision (planned, see DESIGN.md §8); no claim is made"
 def main():
